@@ -415,13 +415,13 @@ MUTANTS = [
          old="            if data_starts_at < self.start:", new="            if False:"),
     dict(name="continuity check disabled", file="strax/chunk.py",
          old="            if chunk.start != last_end:", new="            if False:"),
-    dict(name="_check_dtype skipped for bare arrays", file="strax/plugins/plugin.py",
-         old="            self._check_dtype(result, _dtype)\n", new="            pass\n"),
+    dict(name="original F-C12: chunk constructor compares the declared dtype with itself", file="strax/chunk.py",
+         old="        got_dtype = strax.remove_titles_from_dtype(self.data.dtype)",
+         new="        got_dtype = strax.remove_titles_from_dtype(np.dtype(dtype))"),
+    dict(name="original F-C12b: down-chunking plugin does not check the data_type label", file="strax/plugins/down_chunking_plugin.py",
+         old="            if wrong:", new="            if False and wrong:"),
     dict(name="data_type label not checked", file="strax/plugins/plugin.py",
          old="        if result.data_type != _dtype:", new="        if False:"),
-    dict(name="multi-output non-dict accepted", file="strax/plugins/plugin.py",
-         old="            if not isinstance(result, dict):\n                raise ValueError(\n                    f\"{self.__class__.__name__} is multi-output and should \"",
-         new="            if False:\n                raise ValueError(\n                    f\"{self.__class__.__name__} is multi-output and should \""),
 ]
 
 OBLIGATIONS = [
